@@ -26,7 +26,7 @@ Oracle : the harness evaluates every condition itself, exactly (Fractions, in th
                                        body line effect; W = latency measured on the tree under test + 2 ticks
   alarm-not-rearmed                    W Running ticks after an Alarm run completed without the Alarm being armed again
   alarm-run-not-completed              (only own End block lines executed in the compared runs) an activation of an Alarm (not
-                                       inside an Alarm, no thresholds in its body) whose body run
+                                       inside an Alarm, no thresholds and no Watch/Alarm line in its body) whose body run
                                        has not completed N + 3 ticks later, N = longest earlier completed run of the same
                                        body; judged only while Running, without error / user End block, with the enclosing
                                        blocks alive and no block active other than enclosing ones and the body's own
@@ -96,8 +96,16 @@ class Model:
                 sentinel = first.payload if first is not None and first.kind == "mark" and first.node.get("t") is None else None
                 self.irq[l.id] = {"kind": l.kind, "cond": l.node["cond"], "blocks": blocks, "alarm_anc": alarm_anc,
                                   "nested": irq_anc, "sentinel": sentinel, "text": l.text.strip(), "thr": l.node.get("t")}
-        for q in self.irq.values():
+        for x, q in self.irq.items():
             q["direct_blocks"], q["direct_thr"], q["direct_ends"] = set(), False, set()
+            q["has_nested"] = False
+        for l in lines:
+            if l.kind in H.INTERRUPT_KINDS:
+                p = l.parent
+                while p is not None:
+                    if p in self.irq:
+                        self.irq[p]["has_nested"] = True
+                    p = by_id[p].parent
         for l in lines:
             p = l.parent
             while p is not None and by_id[p].kind not in H.INTERRUPT_KINDS:
@@ -321,7 +329,9 @@ def analyse(case, tr, latency):
             if had_true and te is None and not seg_acts:
                 info["pulse_no_fire"] += 1
         # ---- every run of an Alarm body completes like its earlier runs did (differential against its own history) -------
-        if kind == "alarm" and not q["alarm_anc"] and not q["direct_thr"]:
+        # (bodies containing a Watch/Alarm line are not compared: the state a nested handler leaves on its node - completed,
+        # activated - is carried into the next run of the body and legitimately shortens single runs)
+        if kind == "alarm" and not q["alarm_anc"] and not q["direct_thr"] and not q["has_nested"]:
             allowed = set(q["blocks"]) | q["direct_blocks"] | {"root"}
             all_blk = sorted((i, k, b) for b, l in blockev.items() for i, k in l)
             user_end = [i for i, e in enumerate(ev) if e[1] == "req" and e[2] == "endblock"]
